@@ -33,6 +33,7 @@ func init() {
 			need(m, &out, "outcome_error_or_nothing", 50000)
 			need(m, &out, "muxer_sections_checked", 2000)
 			need(m, &out, "self_similar_sections", 1500)
+			need(m, &out, "straddle_units_judged", 300)
 			need(m, &out, "written_psi_sections_checked", 300)
 			for _, k := range []string{"PAT", "PMT", "NIT", "SDT", "EIT", "TOT"} {
 				need(m, &out, "flips_in_"+k, 2000)
@@ -319,6 +320,30 @@ func selfSimilarCase(c *mon.Ctx, idx int64, r *rand.Rand) {
 }
 
 func runC09(c *mon.Ctx) {
+	// valid multi-section units whose interior section header sits 1..183 bytes before the end of a packet payload (split between
+	// two packets for 1 and 2): delivered like any other, and corrupted in a few places
+	for i := int64(0); i < 2*184; i++ {
+		before := int(i % 184)
+		if before == 0 || !c.Mine("header-straddle", i) {
+			continue
+		}
+		r := c.Rng("header-straddle", i)
+		kind := []refts.TableKind{refts.KindPAT, refts.KindPMT}[i/184]
+		_, u := straddleStream(r, kind, before)
+		cu := &c09unit{kind: kind, pid: u.PID, u: u}
+		if kind == refts.KindPMT {
+			cu.prefix = gen.Mux(map[uint16][]*gen.Unit{0: {gen.PATFor(r, cu.pid)}}, []uint16{0}, nil).Bytes
+		}
+		cu.judge(c, "header-straddle", i, u.Payload, "none", false)
+		for k := 0; k < 4; k++ {
+			pl := append([]byte{}, u.Payload...)
+			off := r.IntN(len(pl))
+			pl[off] ^= 1 << uint(r.IntN(8))
+			cu.judge(c, "header-straddle", i, pl, "bitflip-"+flipRegion(cu, off), true)
+		}
+		c.Count("straddle_units_judged")
+		c.Case(mon.HashBytes("c09hs", u.Payload), true)
+	}
 	for i := int64(0); i < c.Pick(3000, 300000); i++ {
 		if c.Mine("self-similar", i) {
 			selfSimilarCase(c, i, c.Rng("self-similar", i))
